@@ -79,6 +79,9 @@ var hostFuncs = map[string]interface{}{
 	"regexp.MustCompile": regexp.MustCompile,
 	// pure library functions without a symbolic stub: run natively on concrete arguments only
 	"strings.FieldsFunc":   strings.FieldsFunc,
+	"strings.Replace":      strings.Replace,
+	"strings.LastIndexAny": strings.LastIndexAny,
+	"strings.SplitAfter":   strings.SplitAfter,
 	"strings.TrimLeft":     strings.TrimLeft,
 	"strings.TrimRight":    strings.TrimRight,
 	"strings.Trim":         strings.Trim,
